@@ -167,9 +167,13 @@ def _run_histories(args):
         for s, css in enumerate(SELS):
             if css in USES_SCOPE:
                 continue
-            obs = [{'sc': 0, 'el': cidx[id(e)], 'v': bool(sv.match(css, e, NS))} for e in els]
+            try:
+                obs = [{'sc': 0, 'el': cidx[id(e)], 'v': bool(sv.match(css, e, NS))} for e in els]
+                exc0 = None
+            except Exception as ex:          # a query that raises is reported through the frozen clause (nothing is observed)
+                obs, exc0 = [], type(ex).__name__
             lines.append(json.dumps({'id': 'w%d.pristine.%d.%d' % (wid, d, s), 'doc': d, 'sel': s, 'obs': obs,
-                                     'frozen': True, 'what': 'pristine copy, match(%r) per element' % css}))
+                                     'frozen': exc0 is None, 'what': 'pristine copy, match(%r) per element%s' % (css, '' if exc0 is None else ' raised ' + exc0)}))
     tg = [_targets(s, bs4) for s in soups]
     for hn, hist in enumerate(hists):
         for cn, c in enumerate(hist):
